@@ -32,22 +32,23 @@ import (
 
 // c11Side is one endpoint's option set as the specification names it.
 type c11Side struct {
-	Ver        string   `json:"ver"`    // "12" | "13" | "dual"
-	Suites     []string `json:"suites"` // explicit cipher-suite list ([] = library default)
-	Curves     []int    `json:"curves"` // explicit group list ([] = library default)
-	Sigs       []int    `json:"sigs"`   // explicit signature schemes ([] = library default)
-	PSK        string   `json:"psk"`    // "" = no PSK callback, otherwise the key
-	Cert       string   `json:"cert"`   // "" | "ecdsa" | "rsa"
-	EMS        int      `json:"ems"`    // 0 request, 1 require, 2 disable
-	SRTP       []int    `json:"srtp"`
-	ALPN       []string `json:"alpn"`
-	CID        int      `json:"cid"`        // -1 = no generator, otherwise the length this side wants to receive
-	ClientAuth int      `json:"clientAuth"` // server only
-	HV         bool     `json:"hv"`         // server only: hello verification / retry on
-	MTU        int      `json:"mtu"`
-	Store      bool     `json:"store"`  // session store present
-	Resume     bool     `json:"resume"` // session store pre-populated with the lab session
-	Verify     bool     `json:"verify"` // client: verify the chain against the lab CA instead of skipping
+	CertViaCallback bool     `json:"certViaCallback"` // server certificate provided by a GetCertificate callback instead of a static list
+	Ver             string   `json:"ver"`             // "12" | "13" | "dual"
+	Suites          []string `json:"suites"`          // explicit cipher-suite list ([] = library default)
+	Curves          []int    `json:"curves"`          // explicit group list ([] = library default)
+	Sigs            []int    `json:"sigs"`            // explicit signature schemes ([] = library default)
+	PSK             string   `json:"psk"`             // "" = no PSK callback, otherwise the key
+	Cert            string   `json:"cert"`            // "" | "ecdsa" | "rsa"
+	EMS             int      `json:"ems"`             // 0 request, 1 require, 2 disable
+	SRTP            []int    `json:"srtp"`
+	ALPN            []string `json:"alpn"`
+	CID             int      `json:"cid"`        // -1 = no generator, otherwise the length this side wants to receive
+	ClientAuth      int      `json:"clientAuth"` // server only
+	HV              bool     `json:"hv"`         // server only: hello verification / retry on
+	MTU             int      `json:"mtu"`
+	Store           bool     `json:"store"`  // session store present
+	Resume          bool     `json:"resume"` // session store pre-populated with the lab session
+	Verify          bool     `json:"verify"` // client: verify the chain against the lab CA instead of skipping
 }
 
 type c11Case struct {
@@ -188,13 +189,23 @@ func c11Options(cs *c11Case, st *scenStores, interval time.Duration) ([]ClientOp
 	case "rsa":
 		co = append(co, WithCertificates(p.serverRSA))
 	}
+	var scert *tls.Certificate
 	switch cs.S.Cert {
 	case "ecdsa":
-		so = append(so, WithCertificates(p.server))
+		scert = &p.server
 	case "rsa":
-		so = append(so, WithCertificates(p.serverRSA))
+		scert = &p.serverRSA
 	case "ed25519":
-		so = append(so, WithCertificates(c11Ed25519Cert()))
+		c := c11Ed25519Cert()
+		scert = &c
+	}
+	if scert != nil {
+		if cs.S.CertViaCallback {
+			// the same credential, handed out by a GetCertificate callback only: the policy is the same
+			so = append(so, WithGetCertificate(func(*ClientHelloInfo) (*tls.Certificate, error) { return scert, nil }))
+		} else {
+			so = append(so, WithCertificates(*scert))
+		}
 	}
 	if cs.S.ClientAuth != 0 {
 		so = append(so, WithClientAuth(ClientAuthType(cs.S.ClientAuth)), WithClientCAs(p.pool))
